@@ -886,6 +886,9 @@ def normalize_chunks(chunks, shape=None, limit=None, dtype=None, previous_chunks
     if not allints and shape is not None:
         if not all(c == s or (math.isnan(c) or math.isnan(s)) for c, s in zip(map(sum, chunks), shape)):
             raise ValueError(f"Chunks do not add up to shape. Got chunks={chunks}, shape={shape}")
+        # (1, -1) "adds up" to 0: a negative size is never a chunk
+        if any(isinstance(c, Number) and c < 0 for dim in chunks for c in dim):
+            raise ValueError(f"Chunks must be non-negative. Got chunks={chunks}, shape={shape}")
     if allints or isinstance(sum(sum(_) for _ in chunks), int):
         # Fastpath for when we already know chunks contains only integers
         return tuple(tuple(ch) for ch in chunks)
